@@ -387,3 +387,65 @@ func sameBlockOrDom(u *an.Unit, d, s *flow.Site) bool {
 	}
 	return u.G.Dominates(d.Block, s.Block)
 }
+
+// H4: every key of a multi-key command reaches a partition. The regrouping loop of getHandlersForKeys hands each key
+// (and its value) to the command of the key's partition; an iteration that neither appends nor fails — a `continue` —
+// drops a key: EXISTS k k answers 1, PLSET k v1 k v2 writes one value and one OK. (Duplicate keys are the client's
+// business: each occurrence is executed, as on a single store.)
+func c15H4(c *Ctx) {
+	r := c.R
+	r.Clause("C15-H4", "the regrouping loop skips no key of a multi-key command")
+	u := c.unit("C15-H4", "server.(*Server).getHandlersForKeys")
+	if u == nil {
+		return
+	}
+	var loop *ast.RangeStmt
+	u.InspectAll(func(n ast.Node) bool {
+		if rs, ok := n.(*ast.RangeStmt); ok {
+			has := false
+			ast.Inspect(rs.Body, func(m ast.Node) bool {
+				if call, ok := m.(*ast.CallExpr); ok && strings.HasSuffix(u.C.Term(call.Fun), "ExtractNamesapce") {
+					has = true
+				}
+				return !has
+			})
+			if has && loop == nil {
+				loop = rs
+			}
+		}
+		return true
+	})
+	if loop == nil {
+		r.Unknown("C15-H4", u.Name+": regrouping loop", "", "no range loop that extracts the namespace of each key")
+		return
+	}
+	skips := 0
+	var walk func(n ast.Node, inner bool)
+	walk = func(n ast.Node, inner bool) {
+		ast.Inspect(n, func(m ast.Node) bool {
+			if m == n {
+				return true
+			}
+			switch x := m.(type) {
+			case *ast.FuncLit:
+				return false
+			case *ast.ForStmt, *ast.RangeStmt:
+				walk(m, true)
+				return false
+			case *ast.BranchStmt:
+				if x.Tok.String() == "continue" && (!inner || x.Label != nil) {
+					skips++
+				}
+			}
+			return true
+		})
+	}
+	walk(loop.Body, false)
+	r.Check("C15-H4", u.Name+": every iteration over the keys appends the key to its partition's command or fails", u.Pos(loop.Pos()), skips == 0,
+		fmt.Sprintf("%d `continue` statement(s) in the loop over the keys: a skipped key is neither executed nor answered", skips))
+}
+
+func init() {
+	old := registry["C15"].Run
+	registry["C15"].Run = func(c *Ctx) { old(c); c15H4(c) }
+}
